@@ -118,6 +118,7 @@ def extract_constants(eager, inst):
             c["objroot_vm"][n.params["vms"]] = t
         e["clonesrc"] = len(n.cloned_nodes) > 0
         e["stateless"] = len(n.get_stateful_objects()) == 0
+        e.setdefault("long_prefix", n.long_prefix)
         e["timeout"] = float(n.params.get_numeric("test_timeout", 3600))
     flats = TestGraph.parse_flat_nodes(inst.restr, dict(inst.params))
     for f in flats:
